@@ -129,6 +129,89 @@ def grouped_case(case, st):
                             observed=got, expected=want), sub, "c07.grouped")
 
 
+def winding_case(case, cache=None):
+    """grouped form on grids beyond the exhaustive scope: one block is a long winding shape"""
+    from cspuz import Solver, graph
+
+    h, w = case["grid"]
+    n = h * w
+    key = (h, w, repr(case["sizes"]))
+    if cache is not None and key in cache:
+        q, ids = cache[key]
+    else:
+        s = Solver()
+        gs = build_sizes(case["sizes"], s, n, case["grid"])
+        gid = graph.division_connected_variable_groups(s, shape=(h, w), group_size=gs)
+        ids = [v.id for v in gid.data]
+        q = encq.Query(s)
+        if cache is not None:
+            cache[key] = (q, ids)
+    labels = case["partition"]
+    edges = graphref.grid_edges(h, w)
+    ass = []
+    for (u, v) in edges:
+        ass.append(("EQ" if labels[u] == labels[v] else "NE", ("i", ids[u]), ("i", ids[v])))
+    # cells of one block are connected through edges inside the block only if the block is connected, so the
+    # edge relations above determine the partition into connected pieces; equal labels of non-adjacent
+    # cells are asserted along one representative per label
+    rep = {}
+    for u in range(n):
+        if labels[u] in rep:
+            ass.append(("EQ", ("i", ids[rep[labels[u]]]), ("i", ids[u])))
+        else:
+            rep[labels[u]] = u
+    reps = sorted(rep.values())
+    for i in range(len(reps)):
+        for j in range(i + 1, len(reps)):
+            ass.append(("NE", ("i", ids[reps[i]]), ("i", ids[reps[j]])))
+    got = q.rs.sat(ass)
+    want = sizes_ok_grouped(case["sizes"], n, edges, labels)
+    if got != want:
+        raise Failure(("admits-invalid|" if got else "rejects-valid|") + tag(case) + "|winding",
+                      observed=got, expected=want, detail=dict(grid=[h, w], shape=case.get("shape")))
+    return want
+
+
+def shard_winding(arg):
+    seed, shape, n = arg
+    st = Stats()
+    from hypothesis import strategies as hs
+    from checks import c05
+    from vlib import winding
+
+    h, w = shape
+    cache = {}
+
+    @hs.composite
+    def c(draw):
+        name, cells = winding.shapes(draw, hs, h, w)
+        labels, k = c05.winding_labels(h, w, cells)
+        mode = draw(hs.integers(0, 3))
+        if mode == 1 and len(cells) >= 3:
+            y, x = cells[draw(hs.integers(1, len(cells) - 2))]
+            labels[y * w + x] = k           # the shape is cut in the middle: its block is no longer connected
+        sizes = None
+        if draw(hs.booleans()):
+            cnt = {}
+            for v in labels:
+                cnt[v] = cnt.get(v, 0) + 1
+            lst = [cnt[labels[i]] if draw(hs.integers(0, 4)) == 0 else None for i in range(h * w)]
+            if draw(hs.integers(0, 5)) == 0:
+                i = draw(hs.integers(0, h * w - 1))
+                lst[i] = cnt[labels[i]] + 1   # a wrong size
+            sizes = ["list", lst]
+        return dict(grid=[h, w], form="grouped", sizes=sizes, shape=name, partition=labels)
+
+    def body(case):
+        want = winding_case(case, cache)
+        st.case(canon=case, nontrivial=True,
+                classes=["winding", "winding:" + case["shape"], "winding:" + ("valid" if want else "invalid")],
+                sample=case)
+
+    hyp_search(st, c(), body, seed=seed, max_examples=n, check="c07.winding", rounds=2)
+    return st
+
+
 # ------------------------------------------------------------------ border form
 def border_case(case, st):
     from cspuz import Solver, graph
@@ -347,6 +430,11 @@ def run(ctx):
         ctx.stats.merge(r)
     for r in pmap(shard_e2e, [(ctx.seed * 1000 + 80 + i, 80 if quick else 1500) for i in range(8 if quick else 16)]):
         ctx.stats.merge(r)
+    wshapes = [(3, 4), (4, 4), (5, 5), (4, 6), (5, 6), (2, 9)]
+    for r in pmap(shard_winding, [(ctx.seed * 1000 + 95 + i, sh, 24 if quick else 300) for i, sh in enumerate(wshapes)]):
+        ctx.stats.merge(r)
+    ctx.floor("winding partitions that are valid", ctx.stats.classes["winding:valid"], 30)
+    ctx.floor("winding partitions that are invalid", ctx.stats.classes["winding:invalid"], 10)
     cl = ctx.stats.classes
     tot = max(1, cl["grouped"] + cl["border"])
     ctx.floor("cases with None holes (share)", round(cl["sizes-with-holes"] / tot, 3), 0.15)
@@ -360,6 +448,9 @@ def replay(ctx, rep):
     case = rep["case"]
     if rep.get("check") == "c07.e2e":
         e2e_border(case)
+        return
+    if rep.get("check") == "c07.winding":
+        winding_case(case)
         return
     st = Stats()
     c = dict(case)
